@@ -1070,12 +1070,13 @@ Proof.
     destruct (step_sem BMem L a G Ia Ea) as (_ & (A1 & A2 & A3 & A4) & (ra & Va & Ha) & _).
     destruct (step_sem BSql L b G Ib Eb) as (_ & (B1 & B2 & B3 & B4) & (rb & Vb & Hb) & _).
     rewrite Rk, Ri, Vb, Ro in Va. apply app_inv_head in Va. subst rb.
+    rewrite Rk in Ha.
     unfold rsub. rewrite A2, A3, A4, B2, B3, B4. repeat split; try assumption; try tauto.
     + destruct ra; destruct Ha as [Ha _]; destruct Hb as [Hb _]; congruence.
     + destruct ra; destruct Ha as [_ Ha]; destruct Hb as [_ Hb]; congruence.
-  - unfold sub_run. rewrite Ea, <- Rs, Ea. repeat split; tauto.
-  - unfold sub_run. rewrite Ea, <- Rs, Ea. repeat split; tauto.
-  - unfold sub_run. rewrite Ea, <- Rs, Ea. repeat split; tauto.
+  - unfold sub_run. rewrite Ea, <- Rs. unfold rsub. rewrite Ea, <- Rs. repeat split; tauto.
+  - unfold sub_run. rewrite Ea, <- Rs. unfold rsub. rewrite Ea, <- Rs. repeat split; tauto.
+  - unfold sub_run. rewrite Ea, <- Rs. unfold rsub. rewrite Ea, <- Rs. repeat split; tauto.
 Qed.
 
 Lemma wake_rsub : forall a b, rsub a b -> rsub (wake_notify a) (wake_notify b).
@@ -1106,7 +1107,7 @@ Proof.
     try congruence.
   - unfold append. rewrite !next_seq_gf by apply IM || apply IS. now rewrite RL.
   - rewrite RP. destruct (pend ss); [exact RL|exact RL].
-  - rewrite RP. destruct (pend ss); [exact RP|reflexivity].
+  - rewrite RP. destruct (pend ss) eqn:Ep; [cbn; congruence|reflexivity].
   - rewrite RP. destruct (pend ss); cbn [subs]; [exact RS|].
     clear - RS. induction RS; cbn [map]; constructor; auto using wake_rsub.
   - pose proof (Forall2_and_Forall rsub _ _ _ _ RS (si_inv _ IM) (si_inv _ IS)) as F.
@@ -1189,10 +1190,10 @@ Proof.
   assert (GP : gf 0 (firstn p L)) by now apply gf_firstn.
   assert (GR : gf (0 + p) (skipn p L)) by now apply gf_skipn.
   assert (FP : Forall (fun e => s_seq e <= k) (firstn p L)).
-  { pose proof (gf_lt _ _ GP) as F. eapply Forall_impl; [|exact F]. cbn.
-    pose proof (firstn_le_length p L). intros e He.
-    destruct (Z_le_gt_dec 0 (k + 1)); [lia|].
-    replace p with O in * by lia. cbn in *. lia. }
+  { destruct (Z_le_gt_dec 0 (k + 1)).
+    - pose proof (gf_lt _ _ GP) as F. eapply Forall_impl; [|exact F]. cbn.
+      pose proof (firstn_le_length p L). intros e He. lia.
+    - replace p with O by lia. constructor. }
   assert (FR : Forall (fun e => k < s_seq e) (skipn p L)).
   { pose proof (gf_ge _ _ GR) as F. eapply Forall_impl; [|exact F]. cbn. intros; lia. }
   assert (E0 : sub_spec k0 (skipn p L) = sub_spec k (skipn p L)).
@@ -1264,7 +1265,7 @@ Qed.
    stored and the run is over; otherwise a subscription with that very cursor *)
 Theorem resolve_cursor : forall bk L tst k, gapfree L ->
   resolve bk L (HRun tst) (Some k) =
-    (if (Z.of_nat (length L) <=? k + 1) &&
+    (if (length L <=? Z.to_nat (k + 1))%nat &&
         (tst || match last_opt L with Some e => is_terminal e | None => false end)
      then RCompleted else RStream k).
 Proof.
@@ -1272,17 +1273,10 @@ Proof.
   destruct (skipn (Z.to_nat (k + 1)) L) as [|a r] eqn:E.
   - assert (H : (length L <= Z.to_nat (k + 1))%nat).
     { pose proof (f_equal (@length _) E) as EL. rewrite skipn_length in EL. cbn in EL. lia. }
-    destruct L as [|a0 L0].
-    + cbn [length last_opt]. replace (Z.of_nat 0 <=? k + 1) with (0 <=? k + 1) by reflexivity.
-      rewrite orb_false_r. destruct tst; cbn [orb andb]; [|now rewrite andb_false_r].
-      (* empty log, terminal status: 204 whatever the cursor *)
-      destruct (0 <=? k + 1) eqn:Ek; [reflexivity|].
-      reflexivity.
-    + replace (Z.of_nat (length (a0 :: L0)) <=? k + 1) with true by (cbn [length] in *; lia).
-      reflexivity.
+    apply Nat.leb_le in H. now rewrite H.
   - assert (H : (Z.to_nat (k + 1) < length L)%nat).
     { pose proof (f_equal (@length _) E) as EL. rewrite skipn_length in EL. cbn [length] in EL. lia. }
-    replace (Z.of_nat (length L) <=? k + 1) with false by lia. reflexivity.
+    apply Nat.leb_gt in H. now rewrite H.
 Qed.
 
 (* a 204 never hides an event: nothing above the cursor is stored *)
@@ -1295,4 +1289,52 @@ Proof.
   destruct (skipn (Z.to_nat (k + 1)) L) eqn:E; [|discriminate].
   unfold vis_spec, sub_spec. fold (above k). rewrite (filter_above_gf L 0 k G).
   replace (k + 1 - Z.of_nat 0) with (k + 1) by lia. now rewrite E.
+Qed.
+
+(* ================================================================================== *)
+(* 9. Reading of the statement for a stored log                                         *)
+(* ================================================================================== *)
+
+Definition appends (es : list evt) : list action := flat_map (fun e => [AWrite e; ANotify]) es.
+
+Lemma appends_legal : forall es, Forall legal (appends es).
+Proof. induction es; cbn; repeat constructor; auto. Qed.
+
+Lemma run_app : forall bk s a b, run bk s (a ++ b) = run bk (run bk s a) b.
+Proof. intros. unfold run. now rewrite fold_left_app. Qed.
+
+Lemma run_appends : forall bk es s, pend s = O -> subs s = [] ->
+  run bk s (appends es) = mkSys (build_from bk (log s) es) O [].
+Proof.
+  induction es as [|e es IH]; intros s Hp Hs.
+  - cbn. destruct s; cbn in *; now subst.
+  - cbn [appends flat_map app]. rewrite !run_cons. cbn [act]. rewrite Hp, Hs. cbn [map pend log subs].
+    fold (appends es). rewrite IH by reflexivity. reflexivity.
+Qed.
+
+(* append es, subscribe after k, let the subscriber run: it yields exactly the events numbered above
+   k, in order, once each, ending right after the first terminal one (and is then closed) *)
+Theorem subscribe_stored : forall bk es c w k inc,
+  let L := build bk es in
+  let s := run bk sys0 (appends es ++ [ASubscribe (sub_init c w k inc)] ++
+                        ATimeout 0 :: repeat (AStep 0) (S (length es))) in
+  log s = L /\
+  exists x, nth_error (subs s) 0 = Some x /\ out x = vis_spec k inc L /\
+            st x = (if ended k L then Done else Waiting).
+Proof.
+  intros bk es c w k inc L s.
+  set (acts := appends es ++ [ASubscribe (sub_init c w k inc)]).
+  assert (F : Forall legal acts).
+  { apply Forall_app. split; [apply appends_legal|]. constructor; [|constructor]. cbn. eauto. }
+  assert (E : run bk sys0 acts = mkSys L O [sub_init c w k inc]).
+  { unfold acts. rewrite run_app, run_appends by reflexivity. reflexivity. }
+  pose proof (catch_up bk acts 0 (sub_init c w k inc) F) as C. cbn zeta in C. rewrite E in C.
+  cbn [pend log subs nth_error] in C. specialize (C eq_refl eq_refl).
+  assert (EL : length L = length es).
+  { unfold L. destruct (numbering bk es) as [_ M]. rewrite <- (map_length s_ev), M. reflexivity. }
+  rewrite EL in C.
+  assert (ES : s = run bk (mkSys L O [sub_init c w k inc]) (ATimeout 0 :: repeat (AStep 0) (S (length es)))).
+  { unfold s. rewrite app_assoc. fold acts. now rewrite run_app, E. }
+  rewrite <- ES in C. destruct C as [C1 (x & C2 & C3 & C4 & C5 & C6)]. split; [exact C1|].
+  exists x. cbn [k_after incl sub_init] in *. auto.
 Qed.
